@@ -70,6 +70,50 @@ let show_parse = function
   | Some (v, off) -> pr "ok %s %d" (string_of_z v) (int_of_nat off)
   | None -> "oob"
 
+(* ---------- container (C04/C05/C06) *)
+let show_res_code (f : 'a -> string) = function
+  | M.Ok a -> f a
+  | M.Err e -> "e" ^ string_of_z e
+  | M.OOB (s, o) -> pr "oob%s@%s" (string_of_z s) (string_of_z o)
+  | M.Fuel -> "fuel"
+
+let route_of = function "mem" -> M.Mem | "fd" -> M.Fd | s -> failwith ("route " ^ s)
+
+let run_file_script (r : M.route) (bytes : M.z list) (script : string) : string =
+  match M.parser_init r bytes with
+  | M.Ok p0 ->
+    let p = ref p0 in
+    let outs = ref ["init:0"] in
+    let stop = ref false in
+    let emit s = outs := s :: !outs; (match String.split_on_char ':' s with
+        | _ :: c :: _ when String.length c > 0 && (c.[0] = 'e' || c.[0] = 'o' || c.[0] = 'f') -> stop := true
+        | _ -> ()) in
+    List.iter (fun tok ->
+        if tok = "" || tok = "-" || !stop then ()
+        else match tok.[0] with
+          | 'c' -> emit (pr "c:%s,%d,%d" (string_of_z (!p).M.p_type) (int_of_nat (!p).M.p_len) (int_of_nat (!p).M.p_body))
+          | 'v' -> emit (pr "v:%s" (string_of_z (!p).M.p_version))
+          | 'n' -> (match M.seek_to_next_block !p with
+              | M.Ok q -> p := q; emit "n:0"
+              | r -> emit ("n:" ^ show_res_code (fun _ -> "0") r))
+          | 'r' -> (match M.rewind !p with
+              | M.Ok q -> p := q; emit "r:0"
+              | r -> emit ("r:" ^ show_res_code (fun _ -> "0") r))
+          | 'f' -> let ty = int_of_string (String.sub tok 1 (String.length tok - 1)) in
+            (match M.find_first !p (z_of_int ty) with
+             | M.Ok q -> p := q; emit "f:0"
+             | r -> emit ("f:" ^ show_res_code (fun _ -> "0") r))
+          | 'b' -> (match M.read_current_block !p with
+              | M.Ok (got, q) -> p := q; emit ("b:0:" ^ hex_of_bytes got)
+              | r -> emit ("b:" ^ show_res_code (fun _ -> "0") r))
+          | 'x' -> (match M.read_current_block_ex !p with
+              | M.Ok ((got, owned), q) -> p := q; emit (pr "x:0:%d:%s" (if owned then 1 else 0) (hex_of_bytes got))
+              | r -> emit ("x:" ^ show_res_code (fun _ -> "0") r))
+          | _ -> emit ("?" ^ tok))
+      (String.split_on_char ',' script);
+    String.concat " " (List.rev !outs)
+  | r -> "init:" ^ show_res_code (fun _ -> "0") r
+
 (* ---------- dispatch *)
 let run_case (w : string list) : string =
   match w with
@@ -92,6 +136,9 @@ let run_case (w : string list) : string =
     pr "ok %s %s %s" (string_of_z r.M.red) (string_of_z r.M.green) (string_of_z r.M.blue)
   | ["rgbenc"; r; g; b] ->
     pr "ok %s" (string_of_z (M.encode_rgb565 { M.red = z_of_string r; M.green = z_of_string g; M.blue = z_of_string b }))
+  | ["file"; r; b; script] -> run_file_script (route_of r) (bytes_of_hex b) script
+  | ["crc"; c; b; _splits] -> pr "ok %s" (string_of_z (M.crc_update (z_of_string c) (bytes_of_hex b)))
+  | ["crcspec"; b] -> pr "ok %s" (string_of_z (M.crc_spec (bytes_of_hex b)))
   | op :: _ -> "unknown-op " ^ op
   | [] -> "skip"
 
